@@ -226,6 +226,20 @@ def shrink(c):
             yield dict(c, calls=calls)
 
 
+# functions of the implementation this property is anchored in: their line coverage under the correspondence cases is
+# measured on the staged copy and reported in the evidence (implementation_line_coverage)
+ANCHORS = [
+    "datascope/importance/importance.py:Importance.fit",
+    "datascope/importance/importance.py:Importance.score",
+    "datascope/importance/shapley.py:ShapleyImportance._fit",
+    "datascope/importance/shapley.py:ShapleyImportance._score",
+    "datascope/importance/shapley.py:get_unit_labels_and_distances",
+    "datascope/importance/shapley.py:compute_shapley_1nn_mapfork",
+    "datascope/importance/shapley.py:compute_shapley_add",
+    "datascope/importance/utility.py:SklearnModelUtility._model_fit",
+    "datascope/importance/utility.py:SklearnModelUtility.__call__",
+]
+
 MANIFEST = {
     "text": "PARTIAL BY NATURE. Proof: C20_store_invariant (any fit/score sequence on any number of objects leaves the "
             "store of caller-owned objects unchanged -- induction over the call sequence), "
